@@ -560,12 +560,25 @@ def run(ctx):
     ptree = formula.decision(pdg)
     dec = set()
     for c in DOMAIN:
-        env = {"args": {2: c, "ch": c}, "subst": (lambda e: vidx.get("Decimal") if e[0] == "discr" else None)}
+        def of_self(e):
+            x = e[1] if len(e) > 1 and isinstance(e[1], tuple) else ("unknown",)
+            while x[0] in ("ref", "deref", "copy"):
+                x = x[1]
+            return x[0] == "arg" and x[1] == 1
+        env = {"args": {2: c, "ch": c}, "subst": (lambda e: vidx.get("Decimal") if e[0] == "discr" and of_self(e) else None)}
         try:
             lab = formula.eval_decision(ptree, env)
         except formula.Unknown:
             lab = None
-        if formula.label_variant(lab) == "Some":
+        var_ = formula.label_variant(lab)
+        if var_ is None and lab is not None:
+            # the answer is computed by std (`ch.to_digit(radix).map(..)`): evaluate it with the trusted summaries
+            try:
+                v_ = formula.evaluate(lab, env)
+                var_ = v_[1] if isinstance(v_, tuple) and v_[:1] == ("variant",) else None
+            except (formula.Unknown, formula.Overflow):
+                var_ = None
+        if var_ == "Some":
             dec.add(c)
     others = set()
     for b, t in char_switches(tpf):
